@@ -624,6 +624,12 @@ class WP:
         if body_post:
             for label, claim in body_post(self, env_body0, self.env):
                 self.oblige(f'loop {self.loops} body: {label}', claim, n)
+        # frame check: a location that survives the loop and was changed by the body (e.g. ghost state updated by a
+        # call handler) must have been havocked at the loop head, otherwise the head state would be too specific
+        for key, v0 in env_head.items():
+            v1 = self.env.get(key)
+            if v1 is not None and v1.t != v0.t and key not in mod and key not in extra:
+                raise Unsupported(f'{self.name}: loop #{self.loops} changes {key}, which is not havocked at the loop head')
         for label, claim in inv(self):
             self.oblige(f'loop {self.loops} invariant preserved: {label}', claim, n)
         dec = getattr(inv, 'decreases', None)
